@@ -1,0 +1,42 @@
+//go:build verif
+
+package nodes
+
+// Message kinds reported by verifJoinRecv.
+const (
+	VerifJoinRecord   = 0
+	VerifJoinMetadata = 1
+	VerifJoinError    = 2
+	VerifJoinClose    = 3
+)
+
+// VerifJoinRecv, when set, is called by StreamJoin.Run and OuterJoin.Run right after each
+// message they receive from the left (side 0) or right (side 1) source channel, and after they
+// observe that channel closed. A verification harness uses it to release exactly one source
+// message at a time, so that a join consumes its two inputs in a prescribed order.
+var VerifJoinRecv func(side, kind int)
+
+func verifJoinRecv(side, kind int) {
+	if f := VerifJoinRecv; f != nil {
+		f(side, kind)
+	}
+}
+
+func verifJoinKind(ok, metadata bool, err error) int {
+	switch {
+	case !ok:
+		return VerifJoinClose
+	case err != nil:
+		return VerifJoinError
+	case metadata:
+		return VerifJoinMetadata
+	}
+	return VerifJoinRecord
+}
+
+func verifJoinSide(left bool) int {
+	if left {
+		return 0
+	}
+	return 1
+}
